@@ -42,11 +42,7 @@ func keyBudget(needed, retries int) func(string, int) int {
 	}
 }
 
-func report(e *ev.Evaluator) {
-	for _, f := range e.Failures {
-		symx.Fail("generated code: " + f)
-	}
-}
+func report(e *ev.Evaluator) { e.Report() }
 
 var nameCounter int
 
